@@ -23,6 +23,7 @@
 EXTENDS LawRat, TLC, FiniteSets
 
 CONSTANTS Hs, Ms, Ks, Bs, Fs,          \* timestep, mass, stiffness, damping, applied force      (sets of rationals)
+          Polys,                       \* set of <<quadratic, cubic>> joint damping coefficients (rationals >= 0)
           Q0s, V0s, W0s, T0s,          \* initial qpos, qvel, act, time
           Us,                          \* controls the environment may write before a step
           Integs,                      \* subset of {"Euler", "RK4", "implicit", "implicitfast"}
@@ -108,6 +109,12 @@ BEff0(pp) == Add(pp.b, Mul(AP(pp).adamp, Gear2(AP(pp))))         \* damping + re
 \* (constant along a behaviour: computed once in Init and carried in p as meff, beff)
 MEff(pp)  == pp.meff
 BEff(pp)  == pp.beff
+\* polynomial joint damping (XMLreference joint/damping, "Polynomial forces"):  f(v) = -(a v + b v|v| + c v^3)
+\*   = - v * DampCoef(v),   d(-f)/dv = DampDeriv(v) = a + 2 b |v| + 3 c v^2      (a = linear damping incl. the reflected one)
+Poly(pp) == ~IsZero(pp.bq) \/ ~IsZero(pp.bc)
+NoDamping(pp) == IsZero(pp.beff) /\ ~Poly(pp)
+DampCoef(pp, v)  == Add3(pp.beff, Mul(pp.bq, RAbs(v)), Mul(pp.bc, Sq(v)))
+DampDeriv(pp, v) == Add3(pp.beff, Mul3(RI(2), pp.bq, RAbs(v)), Mul3(RI(3), pp.bc, Sq(v)))
 Active(pp) == HasAct(AP(pp)) /\ pp.actuation /\ pp.groupon        \* the actuator produces force
 Ctrl(a, uu) == IF a.clim THEN Clip(uu, a.clo, a.chi) ELSE uu
 \* mj_nextActivation: explicit Euler on the activation, then the actrange clamp
@@ -129,10 +136,10 @@ Fwd(pp, xx, uu) ==
       af   == IF Active(pp) THEN Add(Mul(gain, inp), bias) ELSE Zero
       qa   == Mul(a.gear, af)
       spr  == IF pp.spring THEN Neg(Mul(pp.k, xx.q)) ELSE Zero
-      dmp  == IF pp.damper THEN Neg(Mul(BEff(pp), xx.v)) ELSE Zero
+      dmp  == IF pp.damper THEN Neg(Mul(DampCoef(pp, xx.v), xx.v)) ELSE Zero
       F    == Add4(spr, dmp, pp.f, qa)
       dact == IF Active(pp) THEN Mul(Gear2(a), Add(a.b2, Mul(a.g2, inp))) ELSE Zero
-      dpas == IF pp.damper THEN Neg(BEff(pp)) ELSE Zero
+      dpas == IF pp.damper THEN Neg(DampDeriv(pp, xx.v)) ELSE Zero
   IN [wdot |-> wdot, af |-> af, qa |-> qa, pas |-> Add(spr, dmp), F |-> F, qacc |-> Div(F, MEff(pp)),
       D |-> Add(dact, dpas)]
 
@@ -159,12 +166,13 @@ Advance(pp, st, wdot, acc, usenew, posvel) ==
   IN [q |-> Add(st.q, Mul(pp.h, pv)), v |-> v2, w |-> ww[1], wh |-> ww[2], t |-> Add(st.t, pp.h)]
 
 EulerImplicitDamping(pp) == pp.edamp /\ pp.damper
-EulerDiv(pp)    == IF EulerImplicitDamping(pp) THEN Add(MEff(pp), Mul(pp.h, BEff(pp))) ELSE MEff(pp)
+\* Euler: D = - dB/dv of the joint damping only, evaluated at the current velocity
+EulerDiv(pp, v) == IF EulerImplicitDamping(pp) THEN Add(MEff(pp), Mul(pp.h, DampDeriv(pp, v))) ELSE MEff(pp)
 ImplicitDiv(pp, f) == Sub(MEff(pp), Mul(pp.h, f.D))
 
 InputsDyadic(pp, st, uu) ==
   LET a == AP(pp) IN
-  \A z \in {pp.h, pp.m, pp.k, pp.b, pp.f, st.q, st.v, st.w, st.t, uu, a.g0, a.g1, a.g2, a.b0, a.b1, a.b2, a.alo, a.ahi,
+  \A z \in {pp.h, pp.m, pp.k, pp.b, pp.bq, pp.bc, pp.f, st.q, st.v, st.w, st.t, uu, a.g0, a.g1, a.g2, a.b0, a.b1, a.b2, a.alo, a.ahi,
             a.clo, a.chi, a.gear, a.adamp, a.aarm} : Dyadic(z)
 \* every floating-point operation of the step is exact when the inputs are short dyadics and all divisors powers of two
 Exact(pp, st, uu, div) ==
@@ -176,7 +184,7 @@ SmallState(st, B) == SmallR(st.q, B) /\ SmallR(st.v, B) /\ SmallR(st.w, B) /\ Sm
 \* ---- behaviours ----------------------------------------------------------------------------------------------
 NoFw == [wdot |-> Zero, af |-> Zero, qa |-> Zero, pas |-> Zero, F |-> Zero, qacc |-> Zero, D |-> Zero]
 S0 == [q |-> Zero, v |-> Zero, w |-> Zero, wh |-> Zero, t |-> Zero]
-P0 == [h |-> One, m |-> One, k |-> Zero, b |-> Zero, f |-> Zero, integ |-> "Euler", edamp |-> TRUE, damper |-> TRUE,
+P0 == [h |-> One, m |-> One, k |-> Zero, b |-> Zero, bq |-> Zero, bc |-> Zero, f |-> Zero, integ |-> "Euler", edamp |-> TRUE, damper |-> TRUE,
        spring |-> TRUE, actuation |-> TRUE, groupon |-> TRUE, act |-> "none", meff |-> One, beff |-> Zero, elo |-> Zero, ehi |-> Zero]
 
 \* The case is set up the way a user sets it up: compile a model, write the options, write the state.
@@ -186,7 +194,8 @@ Init == /\ p = P0 /\ s = S0 /\ x = S0 /\ u = Zero /\ fw = NoFw /\ pc = "model" /
 
 PickModel ==          \* mj_compile, body and joint: mass, spring, damper; applied force
   /\ pc = "model"
-  /\ \E mm \in Ms, kk \in Ks, bb \in Bs, ff \in Fs : p' = [p EXCEPT !.m = mm, !.k = kk, !.b = bb, !.f = ff]
+  /\ \E mm \in Ms, kk \in Ks, bb \in Bs, pl \in Polys, ff \in Fs :
+       p' = [p EXCEPT !.m = mm, !.k = kk, !.b = bb, !.bq = pl[1], !.bc = pl[2], !.f = ff]
   /\ pc' = "actuator" /\ ev' = [op |-> "model"]
   /\ UNCHANGED <<s, x, u, fw, stage, ks, n>>
 
@@ -204,6 +213,8 @@ PickIntegrator ==     \* mjOption: timestep, integrator
        \* filterexact only for the ratios h / tau whose enclosure of exp is available, and not under RK4 (the weighted
        \* stage derivatives times the enclosure leave the 32-bit range; RK4 ends in the same mj_nextActivation)
        /\ (AP(p).dyn = "filterexact" => Div(hh, AP(p).tau) \in ExpRatios /\ ii # "RK4")
+       \* polynomial damping (cubes of the stage velocities) not under RK4 either; the force itself is the same Forward
+       /\ (Poly(p) => ii # "RK4" /\ Dyadic(hh))
        /\ p' = [p EXCEPT !.h = hh, !.integ = ii,
                          !.elo = IF AP(p).dyn = "filterexact" THEN ELo(Div(hh, AP(p).tau)) ELSE Zero,
                          !.ehi = IF AP(p).dyn = "filterexact" THEN EHi(Div(hh, AP(p).tau)) ELSE Zero]
@@ -216,7 +227,7 @@ PickFlags ==          \* mjOption: disable flags, disabled actuator groups
        \* flags that cannot matter are kept at their default, so that no case is enumerated twice
        /\ (p.integ # "Euler" => ed)
        /\ (~HasAct(AP(p)) => ac /\ go)
-       /\ (IsZero(p.beff) => da /\ ed)
+       /\ (NoDamping(p) => da /\ ed)
        /\ (IsZero(p.k) => sp)
        /\ Cardinality({i \in 1..5 : ~<<ed, da, sp, ac, go>>[i]}) <= MaxOff
        /\ p' = [p EXCEPT !.edamp = ed, !.damper = da, !.spring = sp, !.actuation = ac, !.groupon = go]
@@ -234,7 +245,7 @@ PickState ==          \* qpos, qvel, act, time
 
 SetCtrl(uu) ==
   /\ pc = "ctl" /\ n < MaxSteps
-  /\ SmallState(s, IF p.integ = "RK4" THEN BoundRK ELSE Bound)
+  /\ SmallState(s, IF p.integ = "RK4" THEN BoundRK ELSE IF Poly(p) THEN 32 ELSE Bound)
   /\ s.wh = s.w                      \* a behaviour continues only from an exactly known activation
   /\ u' = uu /\ x' = s /\ pc' = "fwd" /\ stage' = 1 /\ ks' = << >>
   /\ ev' = [op |-> "ctl"]
@@ -254,7 +265,7 @@ Done(s2, acc, div) ==
 
 Euler ==
   /\ pc = "int" /\ p.integ = "Euler"
-  /\ LET acc == Div(fw.F, EulerDiv(p)) IN Done(Advance(p, s, fw.wdot, acc, TRUE, Zero), acc, EulerDiv(p))
+  /\ LET acc == Div(fw.F, EulerDiv(p, s.v)) IN Done(Advance(p, s, fw.wdot, acc, TRUE, Zero), acc, EulerDiv(p, s.v))
 
 Implicit ==
   /\ pc = "int" /\ p.integ \in {"implicit", "implicitfast"}
@@ -328,19 +339,19 @@ SemiImplicit == IsStep /\ ev.p.integ # "RK4" => ev.post.q = Add(ev.pre.q, Mul(ev
 \* defining equation of the single-step update (eq_implicit_update):  (M - h D)(v' - v) = h F
 UpdateEq == IsStep /\ ev.p.integ # "RK4" =>
               LET pp == ev.p
-                  DD == IF pp.integ = "Euler" THEN (IF EulerImplicitDamping(pp) THEN Neg(BEff(pp)) ELSE Zero) ELSE ev.fw.D
+                  DD == IF pp.integ = "Euler" THEN (IF EulerImplicitDamping(pp) THEN Neg(DampDeriv(pp, ev.pre.v)) ELSE Zero) ELSE ev.fw.D
               IN Mul(Sub(MEff(pp), Mul(pp.h, DD)), Sub(ev.post.v, ev.pre.v)) = Mul(pp.h, ev.fw.F)
 \* Euler with implicit damping solves  M (v' - v) / h = F_without_damper - B v'
-EulerDampEq == IsStep /\ ev.p.integ = "Euler" /\ EulerImplicitDamping(ev.p) =>
+EulerDampEq == IsStep /\ ev.p.integ = "Euler" /\ EulerImplicitDamping(ev.p) /\ ~Poly(ev.p) =>
                  LET pp == ev.p
                      Fnd == Add(ev.fw.F, Mul(BEff(pp), ev.pre.v)) IN
                  Mul(MEff(pp), Sub(ev.post.v, ev.pre.v)) = Mul(pp.h, Sub(Fnd, Mul(BEff(pp), ev.post.v)))
 \* implicit = Euler with implicit damping whenever joint damping is the only velocity-dependent force
 NoActVel(pp) == ~Active(pp) \/ (IsZero(AP(pp).b2) /\ IsZero(AP(pp).g2))
 ImplicitIsEulerDamp == pc = "int" /\ p.integ # "RK4" /\ NoActVel(p) /\ p.edamp /\ p.damper =>
-                         ImplicitDiv(p, fw) = EulerDiv([p EXCEPT !.integ = "Euler"])
+                         ImplicitDiv(p, fw) = EulerDiv([p EXCEPT !.integ = "Euler"], x.v)
 \* RK4 on a linear system x' = A x + c equals the 4th-order Taylor polynomial of the exact flow
-Linear(pp) == ~HasAct(AP(pp)) \/ ~Active(pp) \/ (AP(pp).dyn = "none" /\ IsZero(AP(pp).g1) /\ IsZero(AP(pp).g2))
+Linear(pp) == ~Poly(pp) /\ (~HasAct(AP(pp)) \/ ~Active(pp) \/ (AP(pp).dyn = "none" /\ IsZero(AP(pp).g1) /\ IsZero(AP(pp).g2)))
 RK4Taylor == IsStep /\ ev.p.integ = "RK4" /\ Linear(ev.p) =>
   LET pp == ev.p
       a  == AP(pp)
@@ -361,10 +372,17 @@ RK4Taylor == IsStep /\ ev.p.integ = "RK4" /\ Linear(ev.p) =>
                                             Mul(Mul(Sq(h), Sq(h)), Mul(R(1, 24), e4))))
   IN ev.post.q = T(ev.pre.q, d1q, d2q, d3q, d4q) /\ ev.post.v = T(ev.pre.v, d1v, d2v, d3v, d4v)
 \* RK4 integrates a constant acceleration exactly
-RK4ConstAcc == IsStep /\ ev.p.integ = "RK4" /\ ~HasAct(AP(ev.p)) /\ IsZero(ev.p.k) /\ IsZero(BEff(ev.p)) =>
+RK4ConstAcc == IsStep /\ ev.p.integ = "RK4" /\ ~HasAct(AP(ev.p)) /\ IsZero(ev.p.k) /\ NoDamping(ev.p) =>
                  LET a0 == Div(ev.p.f, ev.p.m) h == ev.p.h IN
                  /\ ev.post.v = Add(ev.pre.v, Mul(h, a0))
                  /\ ev.post.q = Add3(ev.pre.q, Mul(h, ev.pre.v), Mul(Mul(Sq(h), R(1, 2)), a0))
+\* polynomial damping: the force opposes the velocity, is odd in it, and its slope dominates its secant
+\* (so the implicit treatment never flips the sign of the divisor)
+PolyDampLaw == pc = "int" /\ p.damper =>
+                 /\ ~Pos(Mul(Neg(Mul(DampCoef(p, x.v), x.v)), x.v))
+                 /\ DampCoef(p, Neg(x.v)) = DampCoef(p, x.v) /\ DampDeriv(p, Neg(x.v)) = DampDeriv(p, x.v)
+                 /\ LeL(DampCoef(p, x.v), DampDeriv(p, x.v)) /\ DampCoef(p, x.v)[1] >= 0
+                 /\ (~Poly(p) => DampCoef(p, x.v) = p.beff /\ DampDeriv(p, x.v) = p.beff)
 \* a pure damper never reverses or amplifies the velocity under the single-step integrators
 DamperContracts == IsStep /\ ev.p.integ # "RK4" /\ ~HasAct(AP(ev.p)) /\ IsZero(ev.p.k) /\ IsZero(ev.p.f) /\ ev.p.damper
                      /\ ev.p.edamp =>
@@ -376,7 +394,9 @@ L_H4 == {R(1, 4)}                 L_H == {R(1, 4), R(1, 8)}          L_HX == {R(
 L_M1 == {One}                     L_M2 == {One, RI(2)}              L_M == {R(1, 2), One, RI(2), RI(3)}
 L_K1 == {RI(2)}                   L_K2 == {Zero, RI(2)}             L_K == {Zero, R(1, 2), One, RI(2)}
 L_B2 == {Zero, One}               L_B3 == {Zero, One, RI(4)}        L_B == {Zero, R(1, 2), One, RI(2), RI(4)}
-L_F1 == {One}                     L_F2 == {Zero, One}               L_F == {RI(-1), Zero, R(1, 2)}
+L_F1 == {One}                     L_F2 == {Zero, One}
+L_P0 == {<<Zero, Zero>>}          L_P2 == {<<Zero, Zero>>, <<R(1, 2), R(1, 4)>>}
+L_PX == {<<Zero, Zero>>, <<R(1, 2), R(1, 4)>>, <<One, Zero>>, <<Zero, R(1, 2)>>}               L_F == {RI(-1), Zero, R(1, 2)}
 L_Q2 == {R(1, 2)}                 L_Q3 == Qs({-2, 1}, 2)            L_Q == Qs(-2..2, 2)
 L_V2 == {R(-1, 2), One}           L_V3 == Qs({-1, 2}, 2)            L_V == Qs(-2..2, 2)
 L_W == {R(-1, 2), Zero, R(1, 2)}  L_W2 == {Zero, R(1, 2)}
